@@ -39,6 +39,9 @@ CHECKS = {
  "C16": ("history + executable sequential model over uniquely tagged registrations; bounded-exhaustive histories on a fresh TypeRegistry, random histories incl. base registries and the library's global transformer/encoder registries",
          "Every read (resolve / type_transform / plain-typed Schema field / json.dumps) in every history of length <= 5 (quick; 6 thorough) over a 13-symbol alphabet, plus random longer histories, must return the registration the no-cache 'highest priority, most recent wins' model predicts. Exhaustive for the stated alphabet and bound; exploration beyond it.",
          "Trusted: model_resolve()/matches() in vmon/props/c16.py (25 lines). Two defects found and repaired in /repo (b8f56f5, 28f56ca).", "§4 C16"),
+ "C17": ("spelling/order differential monitor: generated systems of mutually referencing data classes materialised as source text under several spellings of each reference, definition orders and first-use orders, every variant judged against the outcome the system's shape determines",
+         "Direct / 'Name' / 'Name' inside a generic / whole-annotation string / postponed evaluation / function-local classes; same late name in several annotations; constrained references (Field bounds on a late plain class, max_length on a reference list); function parameters, *args and return type; shadowed simple names (local / nested / redefined class); results must match from the first call on and on the second pass.",
+         "Expected values are computed from the shape (ints and nesting only). Class names are unique per variant; the process-wide typing ForwardRef cache is exercised by a dedicated scenario (known finding). One defect repaired in /repo (same late name in several annotations).", "§4 C17"),
  "C18": ("depth biconditional monitor over generated recursive declarations and positioned inputs + deterministic work counting (counting leaf converter, sys.monitoring LINE steps) with a growth-ratio oracle",
          "accept <=> nesting depth <= max_depth for chains through every link kind and position (list index 0/1/last, dict keys incl. '' and float keys, tuple slots, union branches, mutual recursion, cyclic inputs); work curves for depth 3..7 (8 thorough) and width 10..640 over every (link, flag set, leaf kind) combination must not grow by >1.9x per level throughout.",
          "Bounded restatement of 'at most polynomial' (ratio test over the stated range). The known exponential (staged union retries) is keyed by stage count; exponential growth under strict options or beyond stage count is a new violation. Step counts need sys.monitoring (inconclusive without).", "§4 C18"),
